@@ -231,6 +231,34 @@ where
             let t = totality_alphabet();
             let small = amt::alphabet_small(tier());
             let ut = bt.units[it];
+            // Decimal: rate operations on mid-range, digit-rich amounts.  Admitted iff every magnitude the statement of
+            // C13 names is in range: operand, term, multiple, their quotient and the result.
+            if dec() {
+                let vals: Vec<A> = ["1", "2.5", "10000", "12345678901.123456789", "98765432109.987654321", "1e13", "0.000123456789", "-40000.5"]
+                    .iter()
+                    .map(|s| amt::parse(s))
+                    .collect();
+                for ip in 0..bp.n() {
+                    let up = bp.units[ip];
+                    for &ta in &vals {
+                        for &mu in &vals {
+                            let rate = Rate::<TQ, PQ>::new(ta, ut, mu, up);
+                            for &qa in &vals {
+                                rep.inc("states");
+                                let (tr, mr, qr) = (rat_of(ta).unwrap(), rat_of(mu).unwrap(), rat_of(qa).unwrap());
+                                let ok = |xs: &[Rat]| xs.iter().all(in_domain);
+                                let adm_mul = ok(&[tr.clone(), mr.clone(), qr.clone(), qr.div(&mr), qr.div(&mr).mul(&tr)]);
+                                let adm_div = ok(&[tr.clone(), mr.clone(), qr.clone(), qr.div(&tr), qr.div(&tr).mul(&mr)]);
+                                let mk = |op: &str| case(&name, op, json!({"term": show_q(ta, bt.vname(it)), "per": show_q(mu, bp.vname(ip)), "q": amt::show(qa)}));
+                                outcome(rep, guard(|| (ops.0)(rate, PQ::new(qa, up)).amount()), adm_mul, "C18/rate-op-panics", || mk("rate * q"));
+                                outcome(rep, guard(|| (ops.1)(PQ::new(qa, up), rate).amount()), adm_mul, "C18/rate-op-panics", || mk("q * rate"));
+                                outcome(rep, guard(|| (ops.2)(TQ::new(qa, ut), rate).amount()), adm_div, "C18/rate-op-panics", || mk("q / rate"));
+                                rep.count("rate_ops", 3);
+                            }
+                        }
+                    }
+                }
+            }
             for ip in 0..bp.n() {
                 let up = bp.units[ip];
                 // term amount and operand from the totality alphabet, multiple from the small alphabet, and vice versa
